@@ -193,13 +193,21 @@ class Context:
                 fn._js_name = name
             return fn
 
+        def name_members(obj):
+            for key, member in list(obj._properties.items()):
+                if isinstance(member, (types.FunctionType, types.MethodType)):
+                    obj._properties[key] = named(member, key)
+                elif isinstance(member, JSBoundMethod) and not hasattr(member, "_js_name"):
+                    member._js_name = key
+
         for name, value in list(self._globals.items()):
             if isinstance(value, (types.FunctionType, types.MethodType)):
                 self._globals[name] = named(value, name)
             elif isinstance(value, JSObject):
-                for key, member in list(value._properties.items()):
-                    if isinstance(member, (types.FunctionType, types.MethodType)):
-                        value._properties[key] = named(member, key)
+                name_members(value)
+                proto = value._properties.get("prototype")
+                if isinstance(proto, JSObject):
+                    name_members(proto)  # Object.prototype.hasOwnProperty and the like
 
     def _js_to_string(self, value: JSValue) -> str:
         """ToString as scripts see it: an object is converted through its
@@ -289,8 +297,20 @@ class Context:
                 return "[object Function]"
             return "[object Object]"
 
+        def to_object_check(this_val, method):
+            if this_val is UNDEFINED or this_val is NULL:
+                from .errors import JSTypeError
+
+                raise JSTypeError(f"Object.prototype.{method} called on null or undefined")
+
         def proto_hasOwnProperty(this_val, *args):
+            to_object_check(this_val, "hasOwnProperty")
             prop = to_string(args[0]) if args else ""
+            if isinstance(this_val, str):
+                # The characters and the length of a string are its own properties
+                return prop == "length" or (
+                    prop.isdigit() and prop.isascii() and str(int(prop)) == prop and int(prop) < len(this_val)
+                )
             if isinstance(this_val, JSArray):
                 # For arrays, check both properties and array indices
                 try:
@@ -313,6 +333,7 @@ class Context:
             return False
 
         def proto_valueOf(this_val, *args):
+            to_object_check(this_val, "valueOf")
             return this_val
 
         def proto_isPrototypeOf(this_val, *args):
